@@ -232,18 +232,18 @@ def pow2(rng, lo=-2, hi=2):
     return F(2) ** rng.randint(lo, hi)
 
 
-def gen_case(rng: random.Random, rotated=False, small=False, edge_ok=False):
+def gen_case(rng: random.Random, rotated=False, small=False, edge_ok=False, minsize=1):
     """A same-CRS pair on which every float operation is exact (power-of-two scales, k/8 shifts);
     unless `edge_ok`, no destination pixel centre maps exactly onto the source's x=0 / y=0 line."""
     while True:
-        c = _gen_case(rng, rotated, small)
+        c = _gen_case(rng, rotated, small, minsize)
         if edge_ok or not edge_zero(c).any():
             return c
 
 
-def _gen_case(rng: random.Random, rotated=False, small=False):
-    mx = 5 if small else 7
-    sh, sw = rng.randint(1, mx), rng.randint(1, mx)
+def _gen_case(rng: random.Random, rotated=False, small=False, minsize=1):
+    mx = max(5 if small else 7, minsize + 3)
+    sh, sw = rng.randint(minsize, mx), rng.randint(minsize, mx)
     dh, dw = rng.randint(1, mx + 2), rng.randint(1, mx + 2)
     # A : destination pixel -> source pixel
     ax = rng.choice([1, 1, 1, -1]) * pow2(rng)
@@ -544,6 +544,169 @@ def oracle_pair(R: Run, ns, case, dtype, data, attr_nd, dst_nd, sched, seed, lea
         R.oracle(okr, "chunked-differs-from-exact-nearest", cj,
                  "chunked result differs from floor-of-mapped-centre reference", sig="exact-ref")
     return whole, chunked
+
+
+# ------------------------------------------------------------------ call histories inside one process
+def layout_family(rng, n):
+    """chunk layouts of an axis of length n that share the first chunk: regular, irregular, permuted tails"""
+    f = rng.randint(1, max(1, n // 2))
+    fam = {tuple([f] * (n // f) + ([n % f] if n % f else []))}
+    for _ in range(4):
+        tail = list(compositions(rng, n - f)) if n > f else []
+        fam.add((f, *tail))
+        rng.shuffle(tail)
+        fam.add((f, *tail))
+        fam.add((f, *reversed(tail)))
+    fam = sorted(fam)
+    other = compositions(rng, n)  # occasionally a layout with another first chunk
+    return fam, other
+
+
+def gen_history(rng, dts):
+    while True:
+        case = gen_case(rng, rotated=rng.random() < 0.25, minsize=4)
+        if (~unreached_exact(case)).mean() >= 0.3:  # the grids really overlap
+            break
+    fy, oy = layout_family(rng, case["sh"])
+    fx, ox = layout_family(rng, case["sw"])
+    # destination tiles small enough to depend on only some of the source tiles
+    dst_chunks = [(rng.randint(1, max(1, case["dh"] // 2)), rng.randint(1, max(1, case["dw"] // 2))) for _ in range(2)]
+    base_dtype = rng.choice([d for d in dts if d != "bool"])
+    calls = []
+    for i in range(rng.randint(3, 5) if rng.random() < 0.8 else 2):
+        dtype = base_dtype if rng.random() < 0.7 else rng.choice([d for d in dts if d != "bool"])
+        attr = rng.choice([None, None, 0, 3])
+        dn = rng.choice([None, None, attr, 5 if not dtype.startswith("float") else -7777])
+        calls.append({
+            "op": "reproject" if (i == 0 or rng.random() < 0.75) else "grid_intersect",
+            "sy": list(rng.choice(fy) if rng.random() < 0.85 else oy), "sx": list(rng.choice(fx) if rng.random() < 0.85 else ox),
+            "cyx": list(dst_chunks[0] if rng.random() < 0.85 else dst_chunks[1]),
+            "dtype": dtype, "attr": nd_json(attr), "dn": nd_json(dn),
+            "resampling": "nearest" if rng.random() < 0.8 else rng.choice(["bilinear", "cubic"]),
+        })
+    data = gen_data(rng, (case["sh"], case["sw"]), "int16", (0, 3))  # cast per call
+    return {"kind": "history", "case": case_json(case), "data": data_json(data, "int16"), "calls": calls}
+
+
+def deps_canon(deps):
+    return sorted((tuple(k), sorted(tuple(i) for i in v)) for k, v in deps.items() if v)
+
+
+def history_call(ns, case, data, call):
+    """one call of a history on the real code -> dict(whole, chunked, deps)"""
+    c = dict(case)
+    c["sy"], c["sx"] = tuple(call["sy"]), tuple(call["sx"])
+    c["cy"], c["cx"] = call["cyx"]
+    sg, dg, _ = geoboxes(ns, c)
+    out = {"deps": deps_canon(real_deps(ns, sg, dg, c))}
+    if call["op"] == "reproject":
+        arr = data.astype(call["dtype"])
+        attr, dn = nd_from_json(call["attr"]), nd_from_json(call["dn"])
+        out["whole"] = ns.xr_reproject(ns.wrap_xr(arr, sg, nodata=attr), dg, resampling=call["resampling"], dst_nodata=dn).values
+        lazy = ns.xr_reproject(ns.wrap_xr(ns.da.from_array(arr, chunks=(c["sy"], c["sx"])), sg, nodata=attr), dg,
+                               resampling=call["resampling"], dst_nodata=dn, chunks=(c["cy"], c["cx"]))
+        out["chunked"] = lazy.data.compute(scheduler="synchronous")
+    return out
+
+
+def _fresh_call(payload):
+    """runs in a brand-new interpreter: the call is the first thing that process ever does with odc-geo"""
+    import os
+    import sys
+    import warnings
+
+    warnings.filterwarnings("ignore")
+    if os.environ.get("ODC_GEO_REPO") and os.environ["ODC_GEO_REPO"] not in sys.path:
+        sys.path.insert(0, os.environ["ODC_GEO_REPO"])
+    cj, i = payload
+    try:
+        ns = _import()
+        case = case_from_json(cj["case"])
+        data = np.asarray(cj["data"]).astype("int16")
+        return history_call(ns, case, data, cj["calls"][i])
+    except Exception as e:  # pylint: disable=broad-except
+        return {"error": f"{type(e).__name__}: {e}"}
+
+
+def needed_tiles(case):
+    """per destination tile: the source tiles holding a pixel that some destination pixel samples (exact)"""
+    a, b, c, d, e, f = case["A"]
+    oy, ox = np.cumsum((0,) + tuple(case["sy"])), np.cumsum((0,) + tuple(case["sx"]))
+    out = {}
+    for y in range(case["dh"]):
+        for x in range(case["dw"]):
+            px = a * (x + F(1, 2)) + b * (y + F(1, 2)) + c
+            py = d * (x + F(1, 2)) + e * (y + F(1, 2)) + f
+            if 0 <= px < case["sw"] and 0 <= py < case["sh"]:
+                out.setdefault((y // case["cy"], x // case["cx"]), set()).add(
+                    (int(np.searchsorted(oy[1:], math.floor(py), "right")), int(np.searchsorted(ox[1:], math.floor(px), "right"))))
+    return out
+
+
+def history_eval(R: Run, ns, cj, fresh):
+    """run the history in THIS process; compare every call with its in-memory result and with the same call
+    made first in a fresh process (`fresh[i]`)"""
+    case = case_from_json(cj["case"])
+    data = np.asarray(cj["data"]).astype("int16")
+    sig = f"history|n={len(cj['calls'])}"
+    okall = True
+    for i, call in enumerate(cj["calls"]):
+        tag = f"call {i + 1}/{len(cj['calls'])} {call}"
+        try:
+            got = history_call(ns, case, data, call)
+        except Exception as e:  # pylint: disable=broad-except
+            R.oracle(False, "history-call-raises", cj, f"{tag}: {type(e).__name__}: {e}", sig=sig)
+            return False
+        fr = fresh[i]
+        if "error" in fr:
+            R.oracle(False, "history-call-raises", cj, f"{tag} as the first call of a fresh process: {fr['error']}", sig=sig)
+            return False
+        ok, what = True, ""
+        if got["deps"] != fr["deps"]:
+            ok, what = False, f"{tag}: grid_intersect returns a different dependency table than in a fresh process"
+        for name in ("chunked", "whole"):
+            if name in got and not (got[name].shape == fr[name].shape and same(got[name], fr[name])):
+                ok = False
+                what = what or (f"{tag}: the {'dask-backed' if name == 'chunked' else 'numpy-backed'} result differs from the same "
+                                f"call made first in a fresh process")
+        okall &= ok
+        R.oracle(ok, "result-depends-on-call-history", cj, what, sig=sig + "|" + call["op"])
+        c = dict(case)
+        c["sy"], c["sx"] = tuple(call["sy"]), tuple(call["sx"])
+        c["cy"], c["cx"] = call["cyx"]
+        have = dict(got["deps"])
+        miss = [(k, sorted(v - set(have.get(k, [])))) for k, v in needed_tiles(c).items() if not v <= set(have.get(k, []))]
+        R.oracle(not miss, "grid-intersect-misses-needed-tile", cj,
+                 f"{tag}: destination tile {miss[0][0]} samples source tiles {miss[0][1]} that grid_intersect does not list"
+                 if miss else "", sig=sig + "|deps")
+        okall &= not miss
+        if "chunked" in got and call["resampling"] == "nearest":
+            okn = got["chunked"].shape == got["whole"].shape and same(got["chunked"], got["whole"])
+            okall &= okn
+            R.oracle(okn, "chunked-differs-from-whole", cj,
+                     f"{tag}: dask-backed differs from numpy-backed (src chunks {call['sy']}x{call['sx']}, dst chunks {call['cyx']})"
+                     if not okn else "", sig=sig + "|vs-whole")
+    return okall
+
+
+def fresh_pool():
+    import multiprocessing as mp
+
+    return concurrent.futures.ProcessPoolExecutor(max_workers=12, mp_context=mp.get_context("spawn"), max_tasks_per_child=1)
+
+
+def histories(R: Run, ns, rng, n, dts):
+    cjs = [gen_history(rng, dts) for _ in range(n)]
+    with fresh_pool() as pool:
+        futs = [[pool.submit(_fresh_call, (cj, i)) for i in range(len(cj["calls"]))] for cj in cjs]
+        for cj, fs in zip(cjs, futs):
+            fresh = []
+            for f in fs:
+                try:
+                    fresh.append(f.result(timeout=600))
+                except Exception as e:  # pylint: disable=broad-except
+                    fresh.append({"error": f"fresh process failed: {type(e).__name__}: {e}"})
+            history_eval(R, ns, cj, fresh)
 
 
 # ------------------------------------------------------------------ several products of one dask source, one graph
@@ -1081,6 +1244,7 @@ def run(R: Run):
     # 3. leading time axis, cross CRS, other resampling (oracle only)
     extra_axes(R, ns, rng, R.pick(160, 1200))
     joint_compute(R, ns, rng, R.pick(70, 600), dts)
+    histories(R, ns, rng, R.pick(20, 120), dts)
     cross_crs(R, ns, rng, R.pick(160, 1500))
 
     R.searchers.append(searcher)
@@ -1121,6 +1285,13 @@ def replay(R: Run, rec) -> int:
     if not cj:
         print(rec.get("broken"))
         return 1
+    if cj.get("kind") == "history":
+        with fresh_pool() as pool:
+            fresh = [f.result(timeout=600) for f in [pool.submit(_fresh_call, (cj, i)) for i in range(len(cj["calls"]))]]
+        history_eval(R, ns, cj, fresh)
+        for f in R.oracle_failures:
+            print("FAIL:", f["key"], f["what"])
+        return 1 if R.oracle_failures else 0
     if cj.get("kind") == "joint":
         joint_one(R, ns, cj)
         for f in R.oracle_failures:
